@@ -35,7 +35,6 @@ EXHAUSTIVE = {'quick': False, 'thorough': False}
 CASE_TIMEOUT = 60
 SOURCES = ['parser.py']
 CONVS = ['default', 'code', 'wrap', 'count', 'empty']
-SIG_FALLBACK = 'C15|build_model-vs-exec|class-returned-for-non-compiling-text'
 ATTRS = ('ENDOGENOUS', 'EXOGENOUS', 'PARAMETERS', 'ERRORS', 'NAMES', 'CHECK', 'LAGS', 'LEADS')
 PREFIX = ' ' * 8
 
@@ -241,16 +240,20 @@ def oracle(case, o):
         out.append(_f('default-converter', 'text', 'converter=None gives another text than the documented default converter'))
     if 'other_exc' in o:
         out.append(_f('typed-vs-untyped', o['other_exc'], 'the other template raised %s' % o['other_exc']))
-    broken = case['conv'] == 'broken' and o['emitting']
     attrs = o.get('attrs', {})
     if 'exec_text_exc' in o:
+        # the text does not execute: build_model must not return a class (fix 56579cc) — BuildError chained from a SyntaxError,
+        # any other exception as it is
         if 'build_model' in attrs:
-            out.append({'sig': SIG_FALLBACK, 'what': 'exec(text) raises %s but build_model returned a class (ENDOGENOUS %r)'
-                        % (o['exec_text_exc'], attrs['build_model']['ENDOGENOUS'])})
-        elif case.get('safe') and not broken:
+            out.append(_f('build_model-vs-exec', 'class-returned-though-text-does-not-execute',
+                          'exec(text) raises %s but build_model returned a class (ENDOGENOUS %r)' % (o['exec_text_exc'], attrs['build_model']['ENDOGENOUS'])))
+        else:
+            want = 'BuildError' if o['exec_text_exc'] in ('SyntaxError', 'IndentationError', 'TabError') else o['exec_text_exc']
+            if o.get('build_exc') != want:
+                out.append(_f('build_model-vs-exec', 'exception:%s' % o.get('build_exc'),
+                              'exec(text) raises %s, build_model raised %s (expected %s)' % (o['exec_text_exc'], o.get('build_exc'), want)))
+        if case.get('safe') and case['conv'] != 'broken':
             out.append(_f('exec-text', o['exec_text_exc'], 'the generated text of a well-formed script does not execute'))
-        return out
-    if broken:
         return out
     if 'build_exc' in o:
         out.append(_f('build_model', o['build_exc'], 'exec(text) works but build_model raised %s' % o['build_exc']))
@@ -294,7 +297,7 @@ def oracle(case, o):
 
 
 def guard(case, o):
-    return case['conv'] == 'broken'
+    return False
 
 
 def nontrivial(case, o):
@@ -358,6 +361,10 @@ SYMBOL_LISTS = [
     [S('caf\xe9', 'EXOGENOUS'), S('\xa0nbsp', 'EXOGENOUS'), S('soft\xadhyphen', 'PARAMETER'), S('\x80\x9f\xff', 'ERROR')],
     [S(None, 'ENDOGENOUS', 0, 0, 'e', 'pass'), S(None, 'EXOGENOUS')],                               # name None outside verbatim
     [S('Y', 'ENDOGENOUS', -3, 0, 'Y[t] = {x}', 'self._Y[t] = {}  # {{braces}} {0} stay verbatim')],
+    # code that does not compile: build_model must raise BuildError (the symbol itself reproduces the error / only the whole does)
+    [S('Y', 'ENDOGENOUS', 0, 0, 'Y[t] = (', 'self._Y[t] = (')],
+    [S('X', 'EXOGENOUS'), S('Y', 'ENDOGENOUS', 0, 0, 'Y[t] = 1', 'self._Y[t] = 1.0'), S('B', 'ENDOGENOUS', 0, 0, 'B[t] = (', 'x = (')],
+    [S(None, 'VERBATIM', equation='`if True:`', code='if True:')],
 ]
 CORPUS = ['', '# nothing', 'Y = X', 'Y = C + I + G + X - M', 'C = {a} + {b} * Y[-1]\nY = C + <e>', 'Y = X[1] + X[-2]',
           '`foo = 1`', '```\nfoo = 1\nbar = 2\n```', 'Y = X\n```\nif True:\n    z = 1\n```\nZ = Y[-1]', 'Y = exp(X) + log(Z) + max(W, 1)',
@@ -423,6 +430,7 @@ def gen(rng, tier):
             for conv in CONVS:
                 add('corpus', script=script, hints=hints, conv=conv)
         add('corpus', script=script, hints=True, conv='broken')
+        add('corpus', script=script, hints=False, conv='broken', opts=_opts(rng))
     for _ in range(50000 if big else 6000):
         safe = rng.random() < 0.6
         ast = bc.gen_ast(rng, safe=safe, n_eq=rng.choice([0, 1, 1, 2, 3, 4]))
@@ -447,7 +455,7 @@ def gen(rng, tier):
         except UnicodeEncodeError:
             continue
         add('malformed', script=s, opts=_opts(rng), hints=rng.random() < 0.5, conv=rng.choice(CONVS))
-    for _ in range(60 if big else 15):
+    for _ in range(300 if big else 60):
         ast = bc.gen_ast(rng, safe=True, n_eq=rng.choice([1, 2, 3]))
         add('ast', script=bc.render_ast(ast), hints=rng.random() < 0.5, conv='broken')
     return cases
